@@ -101,8 +101,25 @@ func main() {
 	switch args[0] {
 	case "func":
 		cmdFunc(args[1:])
+	case "ssa":
+		cmdSSA(args[1:])
+	case "check":
+		cmdCheck(args[1:])
+	case "baseline":
+		cmdBaseline()
+	case "expected":
+		cmdExpected(args[1:])
 	default:
 		fmt.Fprintln(os.Stderr, "unknown command", args[0])
 		os.Exit(2)
+	}
+}
+
+func cmdSSA(args []string) {
+	pr := setup()
+	for _, n := range args {
+		if f := pr.Funcs[n]; f != nil {
+			f.WriteTo(os.Stdout)
+		}
 	}
 }
